@@ -225,7 +225,7 @@ def parse_nat_list(s):
     return [int(x.replace("%nat", "").strip()) for x in s.split(";")]
 
 
-def eval_cases(run_module, terms, workdir, shard=120, jobs=16, timeout=900, tag="cases"):
+def eval_cases(run_module, terms, workdir, shard=120, jobs=int(os.environ.get("VERIF_JOBS", "16")), timeout=900, tag="cases"):
     """Write sharded case files, run coqc in parallel, return (agree_bad, holds_bad, errors).
 
     terms: list of Coq terms of type `case` (strings).  Indices are global."""
